@@ -9,16 +9,16 @@ PROPS = {
         ],
     ),
     'C04': dict(
-        verus=['compression', 'converter'],
+        verus=['compression', 'converter', 'codec_wrappers'],
         kani=['tile_converter'],
         not_decided=[
-            'the external codecs themselves (flate2, brotli): assumed inverse pairs',
+            'the external codecs themselves (flate2 read adapters, brotli stream functions): assumed inverse pairs; the five wrapper functions around them are verified against the assumed clauses in unit codec_wrappers',
             'TileConverter::process_stream / map_blob_parallel (C14): assumed to apply the pipeline to every blob',
             'metadata compression lines of the versatiles / pmtiles writers (inside async writer bodies)',
         ],
     ),
     'C05': dict(
-        verus=['compression', 'converter', 'mbtiles_pyramid'],
+        verus=['compression', 'converter', 'mbtiles_pyramid', 'codec_wrappers'],
         kani=['tile_converter'],
         not_decided=[
             'Accept-Encoding header substring matching, URL splitting and parse::<u32>, status-code mapping, axum/hyper framing',
@@ -35,7 +35,7 @@ PROPS = {
         ],
     ),
     'C08': dict(
-        verus=['overlay', 'compression', 'pyramid_real'],
+        verus=['overlay', 'compression', 'pyramid_real', 'codec_wrappers'],
         kani=['pyramid', 'tile_converter', 'tile_bbox_iter'],
         not_decided=[
             'get_tile_stream of the overlay outside the per-cell closure: iter_bbox_grid(32) split (grid law bounded in tile_bbox_iter) and from_stream_iter concatenation; recompress failing inside the stream (assumption A-overlay-1: the real code panics there)',
@@ -66,7 +66,7 @@ PROPS = {
         ],
     ),
     'C01': dict(
-        verus=['pmtiles_dir', 'pmtiles_dir_dec', 'varint_pbf', 'tile_bbox', 'tile_index', 'block_index', 'block_index_pyramid', 'mbtiles_pyramid', 'versatiles_stream', 'versatiles_writer', 'pmtiles_writer'],
+        verus=['pmtiles_dir', 'pmtiles_dir_dec', 'varint_pbf', 'tile_bbox', 'tile_index', 'block_index', 'block_index_pyramid', 'mbtiles_pyramid', 'versatiles_stream', 'versatiles_writer', 'pmtiles_writer', 'codec_wrappers'],
         kani=['pmtiles_codec', 'versatiles_codec', 'tile_bbox', 'tile_bbox_iter', 'zigzag'],
         not_decided=[
             'end-to-end write-then-read through async I/O: write_block (incl. the de-duplication callback) and the section layout of PMTilesWriter::write_to_writer are under contract; the versatiles header and meta writes, completeness of write_blocks (every non-empty block is listed) and of the PMTiles entry list (every streamed tile has an entry) are not; the composition writer -> file -> reader is not stated as one theorem',
